@@ -1026,9 +1026,9 @@ pub fn run(run: &Run) {
     // the one lock-protected structure that validation threads share (the DOSC inflator table): every interleaving, by loom
     crate::loomrun::inflator_interleavings(run, "C03");
     // ... and apply_tx_batch itself, compiled against loom-backed rayon and locks: every parallel site, every cut, every interleaving
-    let mut labs = vec!["rivals", "faucet-twice", "chain", "chain-reversed", "shared-second-input", "independent", "faucet-spends-and-rival", "rivals-around-bystander", "two-mints"];
+    let mut labs = vec!["rivals", "faucet-twice", "chain", "chain-reversed", "shared-second-input", "independent", "faucet-spends-and-rival", "rivals-around-bystander", "faucet-twice-around-bystander", "chain-of-three", "chain-of-three-reversed", "three-rivals", "shared-input-and-bystander", "two-mints"];
     if thorough {
-        labs.push("two-mints-reversed");
+        labs.extend(["two-mints-reversed", "mint-and-two-payments"]);
     }
     crate::loomrun::stf_interleavings(run, "C03", &labs);
     println!("  [phase] loom labs done at {:.1}s", run.elapsed());
